@@ -7,7 +7,8 @@ package sqfs
 // The two images must be equal byte for byte: length, CRC of everything in [start, start+bytes_used)
 // and of its five parts cut at the superblock's table starts.  The driver also reports that the
 // region model (`finalize` over the sizes of the pieces) describes the model's image (reg=1) and that
-// the model's reader run on the model's image returns the expected walk (rt=1): both are demanded.
+// the model's reader run on the model's image returns the expected walk (rt=1), and that the file list
+// is inside the limits under which theorem writer_reader_roundtrip is proved (lim=1): all are demanded.
 // The driver has no compressor: nothing is compressed in these images.
 
 import (
@@ -239,7 +240,7 @@ func imgWrFamilies(c *hx.Ctx) {
 			fmt.Sprintf("comp=%d", sb.comp), fmt.Sprintf("flags=%d", sb.flags), "opt=-", fmt.Sprintf("fuel=%d", depth+1), "fl="+flString(fl))
 		c.Impl(id, fmt.Sprintf("n=%d", len(img)), fmt.Sprintf("crc=%d", crc32.ChecksumIEEE(img)), fmt.Sprintf("c0=%d", crcR(0, 96)),
 			fmt.Sprintf("c1=%d", crcR(96, sb.inodeStart)), fmt.Sprintf("c2=%d", crcR(sb.inodeStart, sb.dirStart)),
-			fmt.Sprintf("c3=%d", crcR(sb.dirStart, sb.fragStart)), fmt.Sprintf("c4=%d", crcR(sb.fragStart, sb.bytesUsed)), "reg=1", "rt=1")
+			fmt.Sprintf("c3=%d", crcR(sb.dirStart, sb.fragStart)), fmt.Sprintf("c4=%d", crcR(sb.fragStart, sb.bytesUsed)), "reg=1", "rt=1", "lim=1")
 		c.Stat("corr.imgwr")
 		if (int(sb.dirStart) - int(sb.inodeStart)) > 8194 {
 			c.Stat("corr.imgwr.multiblock-inodes")
